@@ -387,6 +387,15 @@ impl<'a> Enc<'a> {
             } as u16;
             prev_off = Some(o);
             let encs = frame_encodings(&prev_locals, f);
+            if l.frames == FrameEnc::Mixed && !self.pool.is_frozen() {
+                // the random choice may differ between the collect pass and the
+                // final pass: make sure every class any encoding needs is pooled
+                for v in f.locals.iter().chain(f.stack.iter()) {
+                    if let VType::Object(c) = v {
+                        self.pool.get(&CpKey::Class(c.clone()))?;
+                    }
+                }
+            }
             let pick = match l.frames {
                 FrameEnc::Compact => 0,
                 FrameEnc::Full => encs.len() - 1,
